@@ -7,6 +7,7 @@
 #include <cstring>
 #include <memory>
 #include "proto.hpp"
+#include "child.hpp"
 #include "memory_stack.hpp"
 #include "iteration_allocator.hpp"
 #include "static_allocator.hpp"
@@ -17,7 +18,20 @@ using namespace verif;
 static Region* R;
 static Oracle* O;
 static long    next_id = 0;
-static long    n_ops = 0, n_ok = 0, n_null = 0, n_throw = 0, n_grow = 0, n_unwind = 0, n_unwind_blocks = 0;
+static long    n_ops = 0, n_ok = 0, n_null = 0, n_throw = 0, n_grow = 0, n_unwind = 0, n_unwind_blocks = 0, n_bad = 0,
+            n_bad_reported = 0, n_bad_stopped = 0;
+static bool    bad_mode = false;
+
+static void bad_result(const std::string& what, const std::string& out)
+{
+    ++n_bad;
+    if (out == "reported")
+        ++n_bad_reported;
+    else if (out == "stopped")
+        ++n_bad_stopped;
+    else
+        O->fail("C16 " + what + " was not reported before the state changed: " + out);
+}
 
 static void emit(const std::string& op, const std::string& res, const std::string& st)
 {
@@ -315,6 +329,36 @@ static void run_stack(const char* subj, Rng& g, long nops, std::size_t block, Ma
         if (!O->failures.empty())
             break;
     }
+    if (bad_mode && FOONATHAN_MEMORY_DEBUG_POINTER_CHECK && O->failures.empty())
+    { // C16: unwinding to a marker above the current top must be reported (child process; the stack here is untouched)
+        Stack& s = *st[cur];
+        auto   state = [&] { return stack_state(s); };
+        auto   m = s.top();
+        auto   probe = [&](const char* why, typename Stack::marker bad)
+        {
+            std::string out = in_child(state, [&] { s.unwind(bad); });
+            bad_result(fmt("unwind to a marker above the top (%s: index %zu top %zu)", why, bad.index, R->off(bad.top)), out);
+            emit(fmt("%s bad_unwind %zu %zu %zu why=%s", subj, bad.index, R->off(bad.top), R->off(bad.end), why), out, stack_state(s));
+        };
+        if (s.capacity_left() > 0)
+        {
+            auto b = m;
+            b.top += 1;
+            probe("one-above", b);
+            b = m;
+            b.top += 1 + g.below(s.capacity_left());
+            probe("above-seeded", b);
+            b = m;
+            b.top = const_cast<char*>(m.end);
+            probe("block-end", b);
+        }
+        auto b = m;
+        b.index += 1;
+        probe("later-block", b);
+        b.index += 1 + g.below(5);
+        b.top = m.top - (m.top > R->base + 64 ? 16 : 0);
+        probe("much-later-block", b);
+    }
     // destruction: everything goes back upstream
     O->verify_all("before destroy");
     long lk = Handlers::leak();
@@ -467,6 +511,7 @@ int main(int argc, char** argv)
     region.policy = int(g.below(3));
     if (argc > 4)
         region.fail_at = std::atol(argv[4]);
+    bad_mode = argc > 5 && std::string(argv[5]) == "bad";
     Handlers::install();
     static const std::size_t block_sizes[] = {64, 128, 200, 256, 1000, 1024, 4096};
     std::size_t              block = block_sizes[g.below(7)];
@@ -525,6 +570,101 @@ int main(int argc, char** argv)
         run_iter<3, static_block_allocator>("iter", g, nops, bs,
                                             [&](void* mem) { return ::new (mem) It(bs, *storage); }, false);
     }
+    else if (subject == "lifo-static" || subject == "lifo-virtual" || subject == "lifo-fixed")
+    { // C16: the LIFO-only block sources driven directly; out-of-order returns run in a child process
+        const bool chk = FOONATHAN_MEMORY_DEBUG_POINTER_CHECK;
+        auto       run_lifo = [&](auto& src, const char* base, std::size_t shift, auto srcstr)
+        {
+            auto off = [&](const void* p) { return std::size_t(static_cast<const char*>(p) - base) + shift; };
+            emit("src new " + srcstr(), "done", srcstr());
+            std::vector<memory_block> got;
+            for (long i = 0; i < nops; ++i)
+            {
+                unsigned k = g.below(100);
+                if (k < 55)
+                {
+                    memory_block b;
+                    std::string  res = guarded([&] { b = src.allocate_block(); });
+                    if (res.empty())
+                    {
+                        got.push_back(b);
+                        res = fmt("blk %zu %zu", off(b.memory), b.size);
+                        ++n_ok;
+                    }
+                    else
+                        ++n_throw;
+                    emit("src alloc_block", res, srcstr());
+                }
+                else if (k < 80 && !got.empty())
+                { // valid: the most recently allocated block (must never be reported)
+                    auto b = got.back();
+                    got.pop_back();
+                    src.deallocate_block(b);
+                    emit(fmt("src dealloc_block %zu %zu", off(b.memory), b.size), "done", srcstr());
+                }
+                else if (chk && bad_mode && got.size() >= 2)
+                { // invalid: any block but the most recent one
+                    auto        b = got[g.below(got.size() - 1)];
+                    std::string out = in_child(srcstr, [&] { src.deallocate_block(b); });
+                    bad_result(fmt("out-of-order deallocate_block(%zu) of a LIFO block source", off(b.memory)), out);
+                    emit(fmt("src bad_dealloc_block %zu %zu", off(b.memory), b.size), out, srcstr());
+                }
+            }
+            while (!got.empty())
+            {
+                auto b = got.back();
+                got.pop_back();
+                src.deallocate_block(b);
+                emit(fmt("src dealloc_block %zu %zu", off(b.memory), b.size), "done", srcstr());
+            }
+        };
+        if (subject == "lifo-static")
+        {
+            static const std::size_t SZ = 8192;
+            auto* storage = static_cast<static_allocator_storage<SZ>*>(region.ptr(Region::blocks_lo + 4096));
+            std::size_t bs = (std::size_t[]){256, 512, 1024, 2048}[g.below(4)]; // must divide the storage size
+            static_block_allocator src(bs, *storage);
+            run_lifo(src, region.base, 0,
+                     [&] { return fmt("static:%zu:%zu:%zu", region.off(src.cur_), region.off(src.end_), src.block_size_); });
+        }
+        else if (subject == "lifo-virtual")
+        {
+            std::size_t             bs = virtual_memory_page_size * (1 + g.below(3));
+            virtual_block_allocator src(bs, 2 + g.below(5));
+            const char*             base = src.cur_;
+            run_lifo(src, base, 4096,
+                     [&] { return fmt("static:%zu:%zu:%zu", std::size_t(src.cur_ - base) + 4096, std::size_t(src.end_ - base) + 4096, src.block_size_); });
+        }
+        else
+        { // fixed_block_allocator: one block at a time; returning a block while none is outstanding is the invalid call
+            std::size_t                      bs = 256 + 16 * g.below(20);
+            fixed_block_allocator<RegionAlloc> src(bs, RegionAlloc(region));
+            auto                             srcstr = [&] { return fmt("fixed:%zu", src.block_size_); };
+            emit("src new " + srcstr(), "done", srcstr());
+            for (long i = 0; i < nops; ++i)
+            {
+                memory_block b;
+                std::string  res = guarded([&] { b = src.allocate_block(); });
+                emit("src alloc_block", res.empty() ? fmt("blk %zu %zu", region.off(b.memory), b.size) : res, srcstr());
+                if (!res.empty())
+                    continue;
+                if (g.chance(40))
+                { // a second allocation while the block is outstanding: out_of_fixed_memory
+                    memory_block b2;
+                    std::string  r2 = guarded([&] { b2 = src.allocate_block(); });
+                    emit("src alloc_block", r2.empty() ? fmt("blk %zu %zu", region.off(b2.memory), b2.size) : r2, srcstr());
+                }
+                src.deallocate_block(b);
+                emit(fmt("src dealloc_block %zu %zu", region.off(b.memory), b.size), "done", srcstr());
+                if (chk && bad_mode && g.chance(50))
+                { // returning it a second time
+                    std::string out = in_child(srcstr, [&] { src.deallocate_block(b); });
+                    bad_result("second deallocate_block of a fixed_block_allocator", out);
+                    emit(fmt("src bad_dealloc_block %zu %zu", region.off(b.memory), b.size), out, srcstr());
+                }
+            }
+        }
+    }
     else if (subject == "static")
     {
         static const std::size_t SZ = 2048;
@@ -564,9 +704,10 @@ int main(int argc, char** argv)
                     region.outstanding.size(), region.outstanding[0].off, region.outstanding[0].size);
     for (auto& f : oracle.failures)
         std::printf("oracle-fail %s\n", f.c_str());
-    std::printf("summary ops=%ld ok=%ld null=%ld throw=%ld grow=%ld unwind=%ld unwound_blocks=%ld up_alloc=%ld up_dealloc=%ld "
-                "up_fail=%ld oracle_checks=%ld\n",
-                n_ops, n_ok, n_null, n_throw, n_grow, n_unwind, n_unwind_blocks, region.n_alloc, region.n_dealloc,
+    std::printf("summary ops=%ld ok=%ld null=%ld throw=%ld grow=%ld unwind=%ld unwound_blocks=%ld bad=%ld bad_reported=%ld bad_stopped=%ld "
+                "up_alloc=%ld up_dealloc=%ld up_fail=%ld oracle_checks=%ld\n",
+                n_ops, n_ok, n_null, n_throw, n_grow, n_unwind, n_unwind_blocks, n_bad, n_bad_reported, n_bad_stopped, region.n_alloc,
+                region.n_dealloc,
                 region.n_fail, oracle.checks);
     return 0;
 }
